@@ -172,3 +172,69 @@ Proof.
   intros [a b] w L. destruct w as [|[c d] [|? ?]]; try discriminate L.
   cbn. ring.
 Qed.
+
+(* ------------------------------------------------------------------------------------------------------------------
+   In dimension <= 5 the hypothesis "the inner CG has converged" is a theorem: the inner system A^H A + lamb is
+   self-adjoint positive definite (adjoint pair, lamb > 0) and ConjugateGradient(system, b, x, max_iter=5) solves such a
+   system exactly within dim <= 5 updates (proofs/CGFinite.v: cg_run_solves). *)
+From SV Require Import proofs.CG proofs.CGFinite.
+
+Lemma cdot_sym u v : cdot u v = cdot v u.
+Proof.
+  revert v. induction u as [|a u IH]; intros v; destruct v as [|b v]; try reflexivity.
+  cbn [cdot]. rewrite (IH v). ring.
+Qed.
+
+Section GSTikhonovDim5.
+  Variable H : IPSpace.
+  Notation X := (ipV H).
+  Notation E := (ops_of H).
+  Variable cphase : R * R -> R * R.
+  Variable A : X -> list (R * R).
+  Variable AH : list (R * R) -> X.
+  Variable y : list R.
+  Variable lamb : R.
+  Notation C := (GSClass E Rabs cphase A AH y lamb).
+
+  Hypothesis Hlen : forall v, length (A v) = length y.
+  Hypothesis Hphase : forall w, cscale E (cabs E w) (cphase w) = w.
+  Hypothesis Hunit : forall w, cabs E (cphase w) = 1.
+  Hypothesis Hadj : forall v w, length w = length y -> ipdot H v (AH w) = cdot (A v) w.
+  Hypothesis Hdim : dim_le H 5.
+  Hypothesis Hl : 0 < lamb.
+
+  Lemma gs_system_selfadjoint : selfadjoint H (gs_system E A AH lamb).
+  Proof.
+    intros v w. unfold gs_system. cbn [vadd vscale ops_of].
+    rewrite (ip_dot_add_l H), (dot_add_r H), (ip_dot_scale_l H), (dot_scale_r H).
+    rewrite (ip_dot_sym H (AH (A v)) w), (Hadj w (A v) (Hlen v)), (Hadj v (A w) (Hlen w)), (cdot_sym (A w) (A v)).
+    reflexivity.
+  Qed.
+
+  Lemma gs_system_posdef : posdef H (gs_system E A AH lamb).
+  Proof.
+    intros v Hv. unfold gs_system. cbn [vadd vscale ops_of].
+    rewrite (dot_add_r H), (dot_scale_r H), (Hadj v (A v) (Hlen v)).
+    pose proof (cdot_self_nonneg (A v)) as N. pose proof (dot_self_pos H v Hv) as P.
+    assert (0 < lamb * ipdot H v v) by (apply Rmult_lt_0_compat; assumption). lra.
+  Qed.
+
+  Lemma gs_inner_solves (x : X) :
+    gs_system E A AH lamb (gs_inner E cphase A AH y lamb x) = gs_b E cphase A AH y x.
+  Proof.
+    unfold gs_inner.
+    apply (cg_run_solves H (gs_system E A AH lamb) (gs_b E cphase A AH y x) None x 5
+             gs_system_selfadjoint gs_system_posdef I 5 Hdim). reflexivity.
+  Qed.
+
+  Theorem gs_tikhonov_stop_fixed_dim5 (s : gs_state E) :
+    gs_residual (update C s) <= 0 ->
+    gs_x (update C s) = ip0 H /\
+    gs_x (update C (update C s)) = gs_x (update C s) /\
+    gs_residual (update C (update C s)) = gs_residual (update C s).
+  Proof.
+    intros Hstop.
+    apply (gs_tikhonov_stop_fixed H cphase A AH y lamb Hlen Hphase Hunit Hadj s Hl); [|exact Hstop].
+    change (gs_x (update C s)) with (gs_inner E cphase A AH y lamb (gs_x s)). apply gs_inner_solves.
+  Qed.
+End GSTikhonovDim5.
